@@ -6,7 +6,8 @@
             -> combined evaluations over the ce domain, comma separated ("panic" when the model returns None)
      split  n ncols offset N evals*N z        -> H_0(z),..|sum_i z^(i n) H_i(z)
      vgroup 1 {group} w state*w x             -> BoundaryConstraintGroup::evaluate_at
-     tcomb  n nex nmain naux coef* mainev* auxev* x  -> TransitionConstraints::combine_evaluations *)
+     tcomb  n nex nmain naux coef* mainev* auxev* x  -> TransitionConstraints::combine_evaluations
+     lag    n ceb ldeb offset v coef*v r*v lb rows ldecol*rows  -> the Lagrange-kernel part of evaluate() over the ce domain *)
 open Zio
 
 let z = z_of_hex
@@ -108,8 +109,21 @@ let tcomb_case c =
   let me = els c nmain in let ae = els c naux in let x = el c in
   h (Composition.combine_evaluations o (nat_of n) rou (nat_of nmain) (nat_of nex) coef me ae x)
 
+let lag_case c =
+  let n = int c in let ceb = int c in let ldeb = int c in let offset = el c in
+  let v = int c in
+  let coefs = els c v in let r = els c v in let lb = el c in
+  let rows = int c in let col = els c rows in
+  if c.toks <> [] then failwith "trailing tokens";
+  let divs = Stdlib.List.init v (fun idx -> { Enforce.d_num = [ (z_of_int (1 lsl idx), o.FieldOps.fone) ]; d_ex = [] }) in
+  let t = { EnforceLagrange.l_coef = coefs; l_div = divs } in
+  match CompositionLagrange.lagrange_evaluate o (nat_of n) (nat_of ceb) (nat_of ldeb) offset rou (nat_of v) col t r lb with
+  | Some l -> join l
+  | None -> "panic"
+
 let eval = function
   | "eval" :: rest -> eval_case { toks = rest }
+  | "lag" :: rest -> lag_case { toks = rest }
   | "split" :: rest -> split_case { toks = rest }
   | "vgroup" :: rest -> vgroup_case { toks = rest }
   | "tcomb" :: rest -> tcomb_case { toks = rest }
